@@ -44,6 +44,8 @@ func vC20Scenario() {
 	silent := vBool("silentpeer")
 	partial := vBool("partialpeer") // a silent peer that first sends the status line and half a header line
 	vAssume(!partial || silent)
+	blockWrite := vBool("peernotreading") // a silent peer that does not even read the request
+	vAssume(!blockWrite || (silent && !partial))
 	refuse := vBool("refusepeer") // the peer answers 400: a handshake failure that is not a timeout
 	vAssume(!(silent && refuse))
 	cancelAt := vInt("cancelat") // cancel right before connection operation #cancelAt (-1: never)
@@ -61,6 +63,10 @@ func vC20Scenario() {
 	hold := vBool("holdwatcher")
 	vAssume(!hold || (!silent && ctxKind == 1 && cancelAt >= 0 && !late))
 	bounded := timeout > 0 || ctxKind >= 2 || cancelAt == -2 || cancelAt == 0 || (cancelAt == 1 && !late)
+	if blockWrite {
+		// the request write (#0) is the operation that never completes
+		bounded = timeout > 0 || ctxKind >= 2 || cancelAt == -2 || (cancelAt == 0 && !late)
+	}
 	// (a partial peer completes the first read: the blocked one is #2)
 	bounded = bounded || (partial && ((cancelAt == 1 && late) || (cancelAt == 2 && !late)))
 	if silent && !bounded {
@@ -79,7 +85,7 @@ func vC20Scenario() {
 			}
 		}
 	}
-	conn := &vDConn{cancelAt: cancelAt, cancelLate: late, ctx: root, silent: silent, partial: partial, refuse: refuse, hold: hold}
+	conn := &vDConn{cancelAt: cancelAt, cancelLate: late, ctx: root, silent: silent, blockWrite: blockWrite, partial: partial, refuse: refuse, hold: hold}
 	vTheConn = conn
 	if cancelAt == -2 && root != nil {
 		root.cancel(context.Canceled)
@@ -117,7 +123,7 @@ func vC20Scenario() {
 			root.cancel(context.Canceled)
 		}
 		conn.mu.Lock()
-		conn.dl = time.Unix(1, 0)
+		conn.dl, conn.wdl = time.Unix(1, 0), time.Unix(1, 0)
 		conn.mu.Unlock()
 	})
 	elapsed := vNowNs()
@@ -138,7 +144,7 @@ func vC20Scenario() {
 		vAssert(after == 0, "dial.watcher_finished_at_return")
 	}
 	conn.mu.Lock()
-	dl, closed, opsAfter := conn.dl, conn.closed, conn.opsAfter
+	dl, wdl, closed, opsAfter := conn.dl, conn.wdl, conn.closed, conn.opsAfter
 	conn.mu.Unlock()
 	if !dialed {
 		// dial-phase cancellation: the context's error, no connection, nothing touched
@@ -180,7 +186,7 @@ func vC20Scenario() {
 	if err == nil {
 		// (a) success: deadlines left cleared, conn never touched again
 		vAssert(got == net.Conn(conn), "dial.success_returns_conn")
-		vAssert(dl.IsZero(), "dial.success_leaves_deadline_cleared")
+		vAssert(vAnd(dl.IsZero(), wdl.IsZero()), "dial.success_leaves_deadline_cleared")
 		vAssert(!closed, "dial.success_does_not_close")
 	} else {
 		// (b) failure: the connection was closed
